@@ -6,6 +6,7 @@
   Digest primitives are a parameter `H` (trusted; compared with hashlib by the check).
 -/
 import YaraModel.Lemmas.HashMathWalk
+import YaraModel.Lemmas.HashMathMem
 import YaraModel.Lemmas.HashMathCrc
 import YaraModel.Lemmas.HashMathCache
 import YaraModel.Lemmas.HashMathStat
@@ -103,6 +104,23 @@ theorem rangeWalk_skip (b b' : Block) (rest : List Block) (off len : Int) (hb : 
   rw [if_neg (by omega)]
 
 example : rangeWalk [⟨0, [1, 2]⟩, ⟨4, [5, 6, 7]⟩] 5 1 = some [6] := by decide
+
+/-- **Every block layout**: on every ascending list of non-empty, non-overlapping blocks (any
+    number of blocks, any gaps) the walker returns exactly the memory-map specification
+    (`Spec.addressedMem`: the bytes at addresses off … min(off+len, end of memory)−1, undefined when
+    the range starts at an unmapped address or crosses an unmapped one) — for every offset and
+    length except a zero-length range that starts exactly at the end of a block. -/
+theorem rangeWalk_eq_addressedMem (blocks : List Block) (hl : Layout blocks) (off len : Int)
+    (hz : len = 0 → ∀ b ∈ blocks, off ≠ ((b.base + b.size : Nat) : Int)) :
+    rangeWalk blocks off len = Spec.addressedMem (toMem blocks) off len :=
+  rangeWalk_eq_addressedMem_lemma blocks hl off len hz
+
+example : Layout [⟨0, [1, 2]⟩, ⟨2, [3]⟩, ⟨5, [6, 7]⟩] ∧
+    Spec.addressedMem (toMem [⟨0, [1, 2]⟩, ⟨2, [3]⟩, ⟨5, [6, 7]⟩]) 1 2 = some [2, 3] ∧
+    Spec.addressedMem (toMem [⟨0, [1, 2]⟩, ⟨2, [3]⟩, ⟨5, [6, 7]⟩]) 1 3 = none ∧
+    Spec.addressedMem (toMem [⟨0, [1, 2]⟩, ⟨2, [3]⟩, ⟨5, [6, 7]⟩]) 6 9 = some [7] := by
+  refine ⟨?_, by decide, by decide, by decide⟩
+  simp [Layout, Block.size]
 
 /-- What the code does for the excluded case of `rangeWalk_contig` (a DEVIATION from the
     concatenation semantics, reported as a finding): a zero-length range that starts exactly where
